@@ -22,6 +22,7 @@ Inductive case :=
 | KPair (l : list Z) (obs : list (Z * Z))
 | KNewTrack (eps : Z) (recs : list triple) (s : seg) (cand : option name) (prefix : option string) (obs : name)
 | KToAnn (eps : Z) (segs : list seg) (g : gen) (obs : list triple)
+| KSubsegExcess (s : seg) (excess : Z) (refused : bool)   (* duration = segment duration + excess * 2^-30 s *)
 | KSubseg (eps : Z) (s : seg) (dur : Z) (min_dur : option Z) (k1 k2 : Z) (obs : option seg)
 | KRandSeg (eps : Z) (segs : list seg) (obs : list seg).
 
@@ -47,6 +48,9 @@ Definition check (c : case) : nat :=
       | Some a => if triples_eqb obs (itertracks a) then 0%nat else 1%nat
       | None => 1%nat
       end
+  | KSubsegExcess s excess refused =>
+      (* a sub-segment of that duration cannot lie inside the segment: the call must be refused *)
+      if (0 <? excess) && negb refused && (st s <? en s) then 1%nat else 0%nat
   | KSubseg eps s dur md k1 k2 obs =>
       let F := 1048576 in
       let m := subseg s dur md k1 k2 eps in
